@@ -126,7 +126,13 @@ func WithToken() OptionFn {
 		p = path.Join(p, "token")
 
 		if _, err := os.Stat(p); os.IsNotExist(err) {
-			ioutil.WriteFile(p, []byte(uid), 0600)
+			// write the token atomically: a start killed in the middle of a
+			// plain write left an empty or truncated token file behind, which
+			// every later start then used as the sensor identity
+			tmp := p + ".tmp"
+			if err := ioutil.WriteFile(tmp, []byte(uid), 0600); err == nil {
+				os.Rename(tmp, p)
+			}
 		} else if err != nil /* other error */ {
 			return err
 		} else if data, err := ioutil.ReadFile(p); err != nil {
